@@ -45,6 +45,19 @@ def check_case(sink, c, o):  # noqa: C901
     ident = dict(c.ident(), opt=repr(o))
     kw = o.kw()
     with o.ctx():
+        # first: no entry point may raise on a well-formed tree (and if one does, all must)
+        outcomes = {}
+        for name, f in TRAVERSALS.items():
+            try:
+                f(c.tree, kw)
+                outcomes[name] = 'returned'
+            except Exception as e:  # noqa: BLE001
+                outcomes[name] = type(e).__name__
+        if set(outcomes.values()) != {'returned'}:
+            raised = sorted(n for n, v in outcomes.items() if v != 'returned')
+            sink.violation('error-parity/well-formed-tree/' + '+'.join(raised) + '/' + '+'.join(sorted(set(outcomes.values()) - {'returned'})),
+                           'an input that makes one traversal raise makes all of them raise the same exception type (a well-formed tree makes none raise)', ident, outcomes)
+            return
         leaves, spec = optree.tree_flatten(c.tree, **kw)
         paths_b, leaves_b, spec_b = optree.tree_flatten_with_path(c.tree, **kw)
         acc_c, leaves_c, spec_c = optree.tree_flatten_with_accessor(c.tree, **kw)
